@@ -1,14 +1,146 @@
-(* C18 — Array morphologies survive their file format; their views agree with the arrays. *)
-From Coq Require Import String List ZArith Bool.
-From LNML Require Import Model.ArrayMorph Proofs.ArrayMorphP.
+(* C18 — Array morphologies survive their file format; their views agree with the arrays.
+   Model: Model/ArrayMorph.v (tied to neuroml/arraymorph.py, writers.py, loaders.py by the correspondence run of
+   checks/c18.py on every run).  No theorem below carries a size, depth or step bound. *)
+From Coq Require Import String List ZArith Bool Permutation.
+From LNML Require Import Model.ArrayMorph Proofs.ArrayMorphP Proofs.ArrayMorphPView Proofs.ArrayMorphPStore.
 Import ListNotations.
 Open Scope Z_scope.
 
+(* ---- re-rooting: for EVERY tree given by parent indices and EVERY vertex i, the Python loop of to_root (fuel =
+   len(connectivity)) terminates without IndexError, keeps the undirected edge set, leaves exactly i as root, and the
+   result is again a tree (so the statement can be iterated) *)
+Theorem C18_to_root : forall (c : list Z) (i : Z),
+    tree_parent c -> 0 <= i < zlen c ->
+    exists c', to_root c i = Ok c' /\ length c' = length c /\
+               (forall e, In e (undirected_edges c') <-> In e (undirected_edges c)) /\
+               roots c' = [i] /\ tree_parent c'.
+Proof. exact to_root_tree. Qed.
+Print Assumptions C18_to_root.
+
+Theorem C18_to_root_any_sequence : forall (indices : list Z) (c : list Z),
+    tree_parent c -> (forall i, In i indices -> 0 <= i < zlen c) ->
+    exists c', to_root_seq c indices = Ok c' /\ length c' = length c /\
+               (forall e, In e (undirected_edges c') <-> In e (undirected_edges c)) /\
+               roots c' = match indices with [] => roots c | _ => [last indices 0] end /\ tree_parent c'.
+Proof. exact to_root_seq_tree. Qed.
+Print Assumptions C18_to_root_any_sequence.
+
+(* the executable check evaluated on the generated inputs implies the hypothesis *)
+Theorem C18_tree_check_sound : forall c, tree_parentb c = true -> tree_parent c.
+Proof. exact tree_parentb_sound. Qed.
+Print Assumptions C18_tree_check_sound.
+
+(* ---- segment view: a morphology given as arrays, no floating vertices, a tree rooted at vertex 0:
+   exactly one segment per non-root vertex (the list of segments is the image of the duplicate-free list of the
+   vertices that have a parent), whose end points are that vertex's row and its parent's row (strict indexing) *)
+Theorem C18_segment_view : forall (V : Type) (m : amorph V),
+    no_floating V m = true -> valid_morphology V m = true ->
+    tree_parent (am_conn m) -> root_index (am_conn m) = Some 0 ->
+    num_segments V m = zlen (non_root_vertices (am_conn m)) /\
+    NoDup (non_root_vertices (am_conn m)) /\
+    (forall v, In v (non_root_vertices (am_conn m)) <-> (exists p, zget (am_conn m) v = Some p /\ p <> -1)) /\
+    segments_view V m = map (expected_segment V m) (non_root_vertices (am_conn m)) /\
+    forall v, In v (non_root_vertices (am_conn m)) ->
+      exists p nv pv, zget (am_conn m) v = Some p /\ 0 <= p < zlen (am_conn m) /\
+                      sget (am_vertices m) v = Some nv /\ sget (am_vertices m) p = Some pv /\
+                      expected_segment V m v = Some {| sg_id := v; sg_prox := nv; sg_dist := pv;
+                                                       sg_parent := if 1 <? v then Some p else None |}.
+Proof. exact segments_view_spec. Qed.
+Print Assumptions C18_segment_view.
+
+(* ---- conversion to a plain morphology (repaired code, fixes/C18-convert-range.patch) yields those same segments *)
+Theorem C18_convert_agrees_with_view : forall (V : Type) (m : amorph V),
+    no_floating V m = true -> to_neuroml_morphology V m = segments_view V m.
+Proof. exact convert_is_view. Qed.
+Print Assumptions C18_convert_agrees_with_view.
+
+(* the pinned code (range(num_vertices - 1)) is refuted: segment 0 runs from the root to the LAST row, vertex 3 has none *)
 Theorem C18_convert_refuted :
   exists m : amorph vtx,
-    tree_parentb (am_conn m) = true /\ root_index (am_conn m) = Some 0 /\ valid_morphology vtx m = true /\
-    existsb (fun b => b) (am_mask m) = false /\
-    map Some [] <> to_neuroml_morphology_orig vtx m /\
-    to_neuroml_morphology_orig vtx m <> segments_view vtx m.
+    no_floating vtx m = true /\ valid_morphology vtx m = true /\ tree_parent (am_conn m) /\
+    root_index (am_conn m) = Some 0 /\
+    to_neuroml_morphology_orig vtx m <> segments_view vtx m /\
+    hd None (to_neuroml_morphology_orig vtx m)
+      = Some {| sg_id := 0; sg_prox := (0,0,0,1); sg_dist := (3,0,0,4); sg_parent := None |} /\
+    ~ In 3 (map (fun s => match s with Some x => sg_id x | None => -1 end) (to_neuroml_morphology_orig vtx m)).
 Proof. exact convert_orig_refuted. Qed.
 Print Assumptions C18_convert_refuted.
+
+(* ---- file round trip (repaired writer, fixes/C18-standalone-morphology.patch), for ANY document of cells and
+   stand-alone morphologies whose top-level group names are distinct, over ANY store that behaves like PyTables:
+   hypotheses pt_* (a new file is empty; create_group/create_array succeed exactly when the parent is a group
+   without a child of that name and then add exactly that node; iteration yields every child once in an order that
+   depends on the names only; what was written under a path is what is read).  The loaded morphologies are the
+   written ones (arrays identical), as a multiset: the loader does not restore names. *)
+Theorem C18_document_roundtrip :
+  forall (V store : Type) (st_empty : store)
+         (st_mkgroup : store -> path -> string -> option store)
+         (st_mkarray : store -> path -> string -> arr V -> option store)
+         (st_children : store -> path -> list string)
+         (st_read : store -> path -> option (arr V))
+         (view : store -> fstore V) (order : list string -> list string),
+    view st_empty = f_empty V ->
+    (forall s p n, sim V store view (st_mkgroup s p n) (f_mkgroup V (view s) p n)) ->
+    (forall s p n a, sim V store view (st_mkarray s p n a) (f_mkarray V (view s) p n a)) ->
+    (forall s p, st_children s p = order (f_names V (view s) p)) ->
+    (forall l, Permutation (order l) l) ->
+    (forall s p, st_read s p = f_read V (view s) p) ->
+    forall d : adoc V,
+      NoDup (top_names V d) /\ ~ In "vertices"%string (cell_morph_names V 0 (d_cells d)) ->
+      exists s ms, write_document V store st_empty st_mkgroup st_mkarray d = Some s /\
+                   load V store st_children st_read s = Some ms /\
+                   Permutation ms (map (strip V) (doc_morphologies V d)).
+Proof. exact document_roundtrip. Qed.
+Print Assumptions C18_document_roundtrip.
+
+(* an ArrayMorphology written on its own: always, no condition *)
+Theorem C18_morphology_roundtrip :
+  forall (V store : Type) (st_empty : store)
+         (st_mkgroup : store -> path -> string -> option store)
+         (st_mkarray : store -> path -> string -> arr V -> option store)
+         (st_children : store -> path -> list string)
+         (st_read : store -> path -> option (arr V))
+         (view : store -> fstore V) (order : list string -> list string),
+    view st_empty = f_empty V ->
+    (forall s p n, sim V store view (st_mkgroup s p n) (f_mkgroup V (view s) p n)) ->
+    (forall s p n a, sim V store view (st_mkarray s p n a) (f_mkarray V (view s) p n a)) ->
+    (forall s p, st_children s p = order (f_names V (view s) p)) ->
+    (forall l, Permutation (order l) l) ->
+    (forall s p, st_read s p = f_read V (view s) p) ->
+    forall m : amorph V,
+      exists s, write_morphology V store st_empty st_mkgroup st_mkarray m = Some s /\
+                load V store st_children st_read s = Some [strip V m].
+Proof. exact morphology_roundtrip. Qed.
+Print Assumptions C18_morphology_roundtrip.
+
+(* the store hypotheses are satisfiable: the reference store with sorted iteration (the one the cases files evaluate
+   and compare with PyTables) is an instance *)
+Theorem C18_store_hypotheses_satisfiable : forall V : Type,
+    (fun f : fstore V => f) (f_empty V) = f_empty V /\
+    (forall s p n, sim V (fstore V) (fun f => f) (f_mkgroup V s p n) (f_mkgroup V s p n)) /\
+    (forall s p n a, sim V (fstore V) (fun f => f) (f_mkarray V s p n a) (f_mkarray V s p n a)) /\
+    (forall s p, f_children V sort_names s p = sort_names (f_names V s p)) /\
+    (forall l, Permutation (sort_names l) l) /\
+    (forall s p, f_read V s p = f_read V s p).
+Proof. exact reference_store_is_an_instance. Qed.
+Print Assumptions C18_store_hypotheses_satisfiable.
+
+(* the same statement for the evaluated model (what the correspondence run compares with the implementation) *)
+Theorem C18_model_roundtrip : forall (V : Type) (d : adoc V),
+    NoDup (top_names V d) /\ ~ In "vertices"%string (cell_morph_names V 0 (d_cells d)) ->
+    exists ms, roundtrip_document V d = RtOk V ms /\ Permutation ms (map (strip V) (doc_morphologies V d)).
+Proof. exact model_roundtrip. Qed.
+Print Assumptions C18_model_roundtrip.
+
+(* the pinned writer (cell_id=cell.id left over from the first loop) is refuted: UnboundLocalError without cells,
+   NodeError after a cell; and it can never write a document that has a stand-alone morphology *)
+Theorem C18_doc_refuted :
+  doc_ok vtx w_doc0 /\ doc_ok vtx w_doc1 /\
+  roundtrip_document_orig vtx w_doc0 = RtUnbound vtx /\ roundtrip_document_orig vtx w_doc1 = RtNodeError vtx.
+Proof. exact doc_orig_refuted. Qed.
+Print Assumptions C18_doc_refuted.
+
+Theorem C18_pinned_writer_never_writes_standalone : forall (V : Type) (d : adoc V),
+    d_morphs d <> [] -> forall f, l_write_document_orig V d <> WOk f.
+Proof. exact orig_never_writes_standalone. Qed.
+Print Assumptions C18_pinned_writer_never_writes_standalone.
